@@ -430,6 +430,24 @@ def r8_defaults(ctx):
                           ("Plurality.__init__", "m", "1"), ("Borda.__init__", "m", "1"), ("Borda.__init__", "score_vector", "None")])
 
 
+def r9_prerequisites(ctx):
+    """Scores are a function of the profile alone: the scoring helpers keep no state between calls (a memo keyed by
+    profile equality ignores the candidate list; C09.R7), and the weights they add up are stored exactly (C11.R2)."""
+    from rules import c09, c11
+    n = 0
+    for fn, keep in ((c09.r7_no_shared_mutable_state, lambda o: "utils." in o.function or o.function == "<package>" or "src/votekit/utils.py" in o.site),
+                     (c11.r2_validators, lambda o: "weight" in o.construct)):
+        sub = type(ctx)(ctx.prog, ctx.prop, ctx.tier)
+        fn(sub)
+        for o in sub.obs:
+            if keep(o):
+                o.rule = "C04.R9"
+                ctx.obs.append(o)
+                n += 1
+    if n < 2:
+        ctx.vanished(f"prerequisite obligations: only {n}")
+
+
 RULES = [
     ("C04.R1", r1_exact, 8, "no library-created float reaches a score in the scoring helpers"),
     ("C04.R2", r2_allocation, 6, "allocation formula, slice/step agreement, per-ballot reset, exact zeros, return"),
@@ -438,6 +456,7 @@ RULES = [
     ("C04.R5", r5_grouping_direction, 20, "equal-score grouping, sort by score only, direction flag true for every rule"),
     ("C04.R6", r6_top_m, 9, "single-round rules select the top m through the selector; tuple roles; selector walks from the top"),
     ("C04.R8", r8_defaults, 9, "documented defaults: exact arithmetic unless to_float, high-to-low ranking, one seat"),
+    ("C04.R9", r9_prerequisites, 2, "prerequisites: scoring helpers are stateless between calls; ballot weights are stored exactly"),
     ("C04.R7", r7_validate_vector, 3, "validate_score_vector polarity and for-all shape"),
 ]
 
